@@ -145,6 +145,23 @@ def run(tier, seed):
         if isinstance(v, memoryview):
             v.release()
     mm.close()
+    # ... and a buffer is its BYTES, however its items are laid out: multi-byte items, several dimensions, array.array (len() counts items there, not bytes)
+    import array as _array
+    for raw in (bytes(range(48)), b"\xfb\xff\xfe\x01" * 6, bytes(8), rng.randbytes(64), rng.randbytes(16)):
+        shapes_ = {"items of 2 bytes": lambda r: memoryview(r).cast("H"), "items of 4 bytes": lambda r: memoryview(r).cast("I"), "items of 8 bytes": lambda r: memoryview(r).cast("Q"),
+                   "two dimensions": lambda r: memoryview(r).cast("B", (len(r) // 8, 8)), "signed items": lambda r: memoryview(r).cast("b"), "char items": lambda r: memoryview(r).cast("c"),
+                   "array of 16-bit items": lambda r: _array.array("H", r), "array of 32-bit items": lambda r: _array.array("I", r), "array of doubles": lambda r: _array.array("d", r)}
+        want = _b64.urlsafe_b64encode(raw).decode().rstrip("=")
+        for what, mk in shapes_.items():
+            try:
+                v = mk(raw)
+            except Exception:
+                continue
+            enc = impl_enc(v)
+            chk.evals += 1
+            if enc != want and not str(enc).startswith("ERR"):
+                chk.violation(f"a buffer with {what} is not encoded by the bytes it holds", f"enc-buffer-layout {what}", {"op": "enc", "form": what, "contents_hex": raw.hex(), "impl": enc, "expected": want})
+            chk.seen(("layout", what, len(raw)))
     class AllEqual(bytes):
         def __eq__(self, other): return True
         def __hash__(self): return 1
@@ -173,9 +190,23 @@ def run(tier, seed):
     # texts that are words elsewhere but plain base64url here: decode(text) is what the model says, and re-encoding gives the text back when it is canonical
     from harness import srcdict
     import base64 as _b64
-    for w in ["null", "true", "false", "None", "NaN", "undefined", "Infinity", "nullnull", "AAAA", "data", "self", "test", "json", "0000", "1234", "this", "eval", "void"] + srcdict.words():
+    # ... and texts that follow the grammar of ANOTHER notation while being plain base64url: GUIDs, hex digests, decimal numbers, dates, ULIDs, JWT segments, MAC addresses ...
+    import uuid as _uuid
+    other_notations = []
+    for _ in range(12 if tier == "quick" else 200):
+        u = str(_uuid.UUID(bytes=rng.randbytes(16)))
+        other_notations += [u, u.upper(), u.replace("-", ""), "urn-uuid-" + u]
+    other_notations += [rng.randbytes(n).hex() for n in (1, 2, 3, 4, 8, 16, 20, 32)] + [str(rng.randrange(10 ** k)) for k in (1, 2, 3, 6, 9, 12, 19, 20)] + ["2026-10-01", "2026-10-01T12-00-00Z", "1-2-3", "----", "____", "-", "_",
+        "00000000-0000-0000-0000-000000000000", "ffffffff-ffff-ffff-ffff-ffffffffffff", "01ARZ3NDEKTSV4RRFFQ69G5FAV", "eyJhbGciOiJIUzI1NiJ9", "eyJhbGciOiJub25lIn0", "aa-bb-cc-dd-ee-ff", "555-0100", "MFRGGZDF", "0x1234", "0b0101", "1e10", "-1", "-0",
+        "1_000_000", "v1", "id-1", "user_1", "0o17", "a" * 36, "-" * 36, "0" * 36, "12345678-1234-1234-1234-1234567890ab", "12345678-1234-5678-1234-567812345678"]
+    for w in ["null", "true", "false", "None", "NaN", "undefined", "Infinity", "nullnull", "AAAA", "data", "self", "test", "json", "0000", "1234", "this", "eval", "void"] + srcdict.words() + other_notations:
         if not w or not set(w) <= ALPHA:
             continue
+        if len(w) % 4 != 1:
+            for pad_ in range(1, 4):
+                chk.evals += 1
+                if (-len(w) % 4) == pad_ % 4 and impl_dec(w + "=" * pad_) != impl_dec(w):
+                    chk.violation(f"the base64url text {w!r} decodes differently with and without its padding", f"decode-padding-matters {w[:12]}", {"op": "dec", "text": w, "padded": w + "=" * pad_, "impl_dec": impl_dec(w), "impl_dec_padded": impl_dec(w + "=" * pad_)})
         d = impl_dec(w)
         chk.evals += 1
         try:
